@@ -42,7 +42,8 @@ Record cfg := mkCfg {
   c_jl : bool;            (* PushJoinLeave *)
   c_fix_anchor : bool;
   c_fix_srvpubs : bool;
-  c_batch : bool          (* per-channel batching (GetChannelBatchConfig with MaxDelay/MaxSize) *)
+  c_batch : bool;         (* per-channel batching (GetChannelBatchConfig with MaxDelay/MaxSize) *)
+  c_fix_off0 : bool       (* PATCH (C10): offset-less publications check flagSubscribed too *)
 }.
 
 Inductive frame :=
@@ -310,8 +311,15 @@ Definition step (c : cfg) (s : st) (l : label) : option st :=
           if negb (hub s) then Some s1            (* no subscriber entry: dropped at the hub *)
           else match t with
                | TPub p =>
-                   if po p =? 0 then               (* writePublication, Offset == 0 branch *)
-                     if pf p then Some s1 else Some (set_dl s1 (DPub p lag PEnq))
+                   if po p =? 0 then               (* writePublication, Offset == 0 branch: no
+                                                      subscription check as the code stands *)
+                     if pf p then Some s1
+                     else if c_fix_off0 c
+                          then match ch s with
+                               | Sub _ _ => Some (set_dl s1 (DPub p lag PEnq))
+                               | _ => Some s1
+                               end
+                          else Some (set_dl s1 (DPub p lag PEnq))
                    else Some (set_dl s1 (DPub p lag PSync))
                | TJoin => Some (set_dl s1 (DJL true PCheck))
                | TLeave => Some (set_dl s1 (DJL false PCheck))
